@@ -107,7 +107,13 @@ void DataSet::getData(T &value, const NDSize &count, const NDSize &offset) const
     DataType dtype = hydra.element_data_type();
 
     hydra.resize(count);
-    getData(dtype, hydra.data(), count, offset);
+    if (count) {
+        getData(dtype, hydra.data(), count, offset);
+    } else {
+        // an empty count left a value of rank 0, which holds one element: read exactly one element -
+        // handed on, an empty count would mean "everything" (a DataView transfers its whole window)
+        getData(dtype, hydra.data(), NDSize(offset ? offset.size() : dataExtent().size(), 1), offset);
+    }
 }
 
 template<typename T>
